@@ -268,8 +268,8 @@ class Intersection:
         limits = ((uamin, uamax), (ubmin, ubmax))
         nodes_a_sample = [0] + [(2 * i + 1) / (2 * nsma) for i in range(nsma)] + [1]
         nodes_b_sample = [0] + [(2 * i + 1) / (2 * nsmb) for i in range(nsmb)] + [1]
-        uasample = [uamin + (uamax - uamin) * node for node in nodes_a_sample]
-        ubsample = [ubmin + (ubmax - ubmin) * node for node in nodes_b_sample]
+        uasample = [(1 - node) * uamin + node * uamax for node in nodes_a_sample]
+        ubsample = [(1 - node) * ubmin + node * ubmax for node in nodes_b_sample]
         pairs = set()
         for nodea in uasample:
             for nodeb in ubsample:
